@@ -445,7 +445,7 @@ func Main(s Spec) {
 		func() {
 			defer func() {
 				if rec := recover(); rec != nil {
-					res.Note(fmt.Sprintf("HARNESS-PANIC shard %d: %v\n%s", i, rec, debug.Stack()))
+					notePanic(res, fmt.Sprintf("shard %d", i), rec, debug.Stack())
 				}
 			}()
 			s.Run(tier, i, n, res)
@@ -465,7 +465,7 @@ func Main(s Spec) {
 		func() {
 			defer func() {
 				if rec := recover(); rec != nil {
-					res.Note(fmt.Sprintf("HARNESS-PANIC: %v\n%s", rec, debug.Stack()))
+					notePanic(res, "", rec, debug.Stack())
 				}
 			}()
 			s.Run(tier, 0, 1, res)
@@ -615,6 +615,25 @@ func replay(s Spec, path string) int {
 		return 2
 	}
 	res := NewResult()
+	if raw.Check == "library" {
+		// a panic inside the library ended a run: run the quick tier again in this process and report it again
+		func() {
+			defer func() {
+				if rec := recover(); rec != nil {
+					notePanic(res, "", rec, debug.Stack())
+				}
+			}()
+			s.Run("quick", 0, 1, res)
+		}()
+		for _, v := range res.Violations {
+			if v.Check == "library" {
+				fmt.Printf("REPLAY property=%s reproduced %s/%s: %s\n", s.Property, v.Check, v.Kind, v.Msg)
+				return 1
+			}
+		}
+		fmt.Printf("REPLAY property=%s case passes (no panic inside the library)\n", s.Property)
+		return 0
+	}
 	s.Replay(raw.Check, raw.Case, res)
 	if len(res.Violations) == 0 {
 		fmt.Printf("REPLAY property=%s case passes (no violation reproduced)\n", s.Property)
@@ -741,13 +760,27 @@ func Par(n, w int, f func(i int)) {
 		w = 1
 	}
 	var wg sync.WaitGroup
+	var pmu sync.Mutex
+	var first *ParPanic
 	ch := make(chan int, w)
 	for k := 0; k < w; k++ {
 		wg.Add(1)
 		go func() {
 			defer wg.Done()
 			for i := range ch {
-				f(i)
+				func() {
+					// a panic in a worker would kill the process with no verdict at all: carry it to the caller instead
+					defer func() {
+						if rec := recover(); rec != nil {
+							pmu.Lock()
+							if first == nil {
+								first = &ParPanic{Value: rec, Stack: debug.Stack()}
+							}
+							pmu.Unlock()
+						}
+					}()
+					f(i)
+				}()
 			}
 		}()
 	}
@@ -756,6 +789,84 @@ func Par(n, w int, f func(i int)) {
 	}
 	close(ch)
 	wg.Wait()
+	if first != nil {
+		panic(first)
+	}
+}
+
+// ParPanic is the panic of a Par worker, re-raised in the caller with the worker's stack.
+type ParPanic struct {
+	Value any
+	Stack []byte
+}
+
+func (p *ParPanic) Error() string { return fmt.Sprint(p.Value) }
+
+// notePanic classifies a panic that ended a run. If it was raised INSIDE the library under test (first frame above the
+// panic machinery belongs to the repository's packages, not to the shims or the harness), the library panicked on an
+// input the check gave it - on the unchanged tree no check panics, so this is the code under test misbehaving, and it
+// is reported as the violation it is (every property demands an outcome, not a crash, for the inputs it quantifies
+// over). Anything else is a defect of the harness: INCONCLUSIVE.
+func notePanic(res *Result, where string, rec any, stack []byte) {
+	if pp, ok := rec.(*ParPanic); ok {
+		rec, stack = pp.Value, pp.Stack
+	}
+	if fn := panicOrigin(string(stack)); fn != "" {
+		res.Incomplete = append(res.Incomplete, "run ended by a panic inside the library")
+		res.Violate(Violation{Check: "library", Kind: "panic-in-library", Attrs: map[string]any{"where": fn},
+			Msg:  fmt.Sprintf("the library panicked in %s while the check was running: %v\n%s", fn, rec, trimStack(string(stack))),
+			Case: map[string]any{"panic": fmt.Sprint(rec), "function": fn}})
+		return
+	}
+	res.Note(fmt.Sprintf("HARNESS-PANIC %s: %v\n%s", where, rec, stack))
+}
+
+const libPrefix = "github.com/aldas/go-modbus-client"
+
+// panicOrigin returns the function that raised the panic if it belongs to the library under test, "" otherwise.
+func panicOrigin(stack string) string {
+	lines := strings.Split(stack, "\n")
+	seenPanic := false
+	for _, l := range lines {
+		if strings.HasPrefix(l, "\t") || l == "" {
+			continue
+		}
+		if strings.HasPrefix(l, "panic(") {
+			seenPanic = true
+			continue
+		}
+		if !seenPanic {
+			continue
+		}
+		if strings.HasPrefix(l, "runtime.") || strings.HasPrefix(l, "runtime/") {
+			continue // goPanicIndex, panicmem, sigpanic, ...
+		}
+		// first frame above the panic machinery
+		if strings.HasPrefix(l, libPrefix) && !strings.Contains(l, "/verifshim/") {
+			if i := strings.Index(l, "("); i > 0 {
+				// method names contain "(": keep up to the argument list
+				if j := strings.LastIndex(l, "("); j > 0 {
+					return l[:j]
+				}
+			}
+			return l
+		}
+		return ""
+	}
+	return ""
+}
+
+func trimStack(st string) string {
+	var keep []string
+	for _, l := range strings.Split(st, "\n") {
+		if strings.Contains(l, libPrefix) || strings.Contains(l, "/repo/") || strings.Contains(l, "verif/") {
+			keep = append(keep, strings.TrimSpace(l))
+		}
+		if len(keep) >= 10 {
+			break
+		}
+	}
+	return strings.Join(keep, "\n")
 }
 
 // Assign distributes jobs with the given estimated costs over n shards (longest-processing-time-first, deterministic);
